@@ -58,6 +58,19 @@ def inputs(ctx):
                 ks += [key] * min(n - len(ks), rng.choice([1, 1, 1, 2, 3, 5]))
             langs.append(ks)
         ins.append({"id": "rm%d" % k, "kind": "merge", "langs": langs, "breaks": rng.choice([True, True, "edge", "edge2", "blank"])})
+    # merge: runs whose captions differ in their own style, captions that share one node list (a
+    # recurring "[music]" cue): merging looks at the timespans only and changes no caption it does not merge
+    for k, c in enumerate(ctx._cases):
+        keys = c["keys"]
+        if len(keys) >= 2 and k % 2 == 0:
+            ins.append({"id": "gm7-%d" % k, "kind": "merge", "langs": [keys], "breaks": "styles"})
+            ins.append({"id": "gm8-%d" % k, "kind": "merge", "langs": [keys, list(reversed(keys))], "breaks": "shared"})
+    # the two writers that merge, constructed in every spelling their signatures allow
+    for k, c in enumerate(ctx._cases):
+        keys = c["keys"]
+        if len(keys) >= 2 and k % 3 == 0:
+            for ctor in ("single", "single-kw", "single-pos-false", "single-pos-size", "single-kw-norel", "legacy", "legacy-args"):
+                ins.append({"id": "mw%d-%s" % (k, ctor), "kind": "mergewriter", "langs": [keys, list(reversed(keys))], "ctor": ctor})
     # adjust: grid
     t1, t2 = 1_000_000, 3_000_000
     g = 0
@@ -101,6 +114,7 @@ def _mk(langs_desc, with_breaks):
     caps = {}
     ids = {}
     nid = 0
+    shared = {}
     for li, lst in enumerate(langs_desc):
         cl = CaptionList()
         for ci, item in enumerate(lst):
@@ -124,10 +138,15 @@ def _mk(langs_desc, with_breaks):
                 nodes.append(CaptionNode.create_text("L%d c%d b" % (li, ci)))
             elif ci % 2 == 0:
                 nodes.append(CaptionNode.create_text("L%d c%d b" % (li, ci)))
+            if with_breaks == "shared":
+                # every caption of this language with this timespan holds the very same list object
+                nodes = shared.setdefault((li, str(item)), nodes)
             for n in nodes:
-                nid += 1
-                ids[id(n)] = nid
-            cl.append(Caption(s, e, nodes, style={}))
+                if id(n) not in ids:
+                    nid += 1
+                    ids[id(n)] = nid
+            style = {"class": "speaker%d" % (ci % 2)} if with_breaks == "styles" and ci % 3 else {}
+            cl.append(Caption(s, e, nodes, style=style))
         caps["l%d" % li] = cl
     return CaptionSet(caps, styles={}), ids
 
@@ -151,6 +170,30 @@ def _proj_nodes(c, ids):
 
 def execute(inp):
     from pycaption.base import merge_concurrent_captions
+    if inp["kind"] == "mergewriter":
+        from pycaption.dfxp.extras import LegacyDFXPWriter, SinglePositioningDFXPWriter
+        from pycaption.geometry import Alignment, HorizontalAlignmentEnum, Layout, VerticalAlignmentEnum
+        from . import scan
+        cs, ids = _mk(inp["langs"], False)
+        langs = cs.get_languages()
+        region = Layout(alignment=Alignment(HorizontalAlignmentEnum.CENTER, VerticalAlignmentEnum.BOTTOM))
+        rec = {"kind": "mergewriter", "ok": False, "divs": [],
+               "langs": [[{"t": _key(c), "n": _proj_nodes(c, ids)} for c in cs.get_captions(l)] for l in langs]}
+        try:
+            w = {"single": lambda: SinglePositioningDFXPWriter(region),
+                 "single-kw": lambda: SinglePositioningDFXPWriter(default_positioning=region, relativize=True),
+                 "single-pos-false": lambda: SinglePositioningDFXPWriter(region, False),
+                 "single-pos-size": lambda: SinglePositioningDFXPWriter(region, True, 640, 360),
+                 "single-kw-norel": lambda: SinglePositioningDFXPWriter(region, relativize=False, fit_to_screen=False),
+                 "legacy": lambda: LegacyDFXPWriter(),
+                 "legacy-args": lambda: LegacyDFXPWriter(False, 640, 360)}[inp["ctor"]]()
+            out = w.write(cs)
+            root, err = scan.parse_xml_strict(out)
+            rec["divs"] = [len(dv["ps"]) for dv in scan.scan_dfxp(root)["divs"]]
+            rec["ok"] = True
+        except Exception as e:
+            rec["err"] = type(e).__name__ + ": " + str(e)[:200]
+        return rec
     if inp["kind"] == "merge":
         cs, ids = _mk(inp["langs"], inp.get("breaks", False))
         langs = cs.get_languages()
@@ -201,6 +244,8 @@ def signature(inp, rec, clause):
 
 
 def nontrivial(inp, rec):
+    if rec["kind"] == "mergewriter":
+        return inp["id"]
     if rec["kind"] == "merge":
         if any(len(l["out"]) < len(l["in"]) for l in rec["langs"]):
             return [inp["langs"], inp.get("breaks", False)]
@@ -213,6 +258,12 @@ def nontrivial(inp, rec):
 def corrupt(inp, rec):
     import copy
     out = []
+    if rec["kind"] == "mergewriter":
+        if rec["ok"] and rec["divs"]:
+            c = copy.deepcopy(rec)
+            c["divs"][0] += 1
+            out.append(c)
+        return out
     if rec["kind"] == "merge":
         for li, l in enumerate(rec["langs"]):
             if l["out"]:
